@@ -45,6 +45,13 @@ REQUIRE = {
     "U_ops_compared": 1500,
     "U_charset_switches": 500,
     "U_cases_agree_all_feed_modes": 100,
+    "C_ops_compared": 3000,
+    "C_charset_ops": 600,
+    "C_decrc_again_without_new_save": 100,
+    "C_decrc_again_after_charset_or_sgr_change": 60,
+    "C_prints_in_graphics_or_alt_font": 300,
+    "B_pending_wrap_cleared_by_op": 400,
+    "B_pending_cleared_by:RIS": 30,
     "D_ops_compared": 3000,
     "D_ops_under_origin_mode": 1500,
     "D_decstbm_changes_under_origin_mode": 200,
@@ -59,6 +66,10 @@ RULE = (
     "LF, BS, CUP/HVP, CUx, EL, ED, ICH, DCH, IL, DL, DECSTBM, IND, RI, NEL, SGR, DSR) on 1x1..40x12 terminals, per-op chunking, "
     "driven in lock-step with the faithful and the all-known-quirks model; part S: sequences of 1-6 SGR commands (basic/bright/"
     "256/24-bit colours, bold, underline, blink, reverse and their resets) each followed by one glyph whose style is compared; "
+    "part C: the part-B machinery with SO/SI, ESC ( x / ESC ) x (x in 0 B A), SGR incl. 10/11/12, DECSC/DECRC with several "
+    "restores per save and charset/SGR changes between them, RIS, on 2x1..12x5 terminals, glyphs compared after DEC "
+    "special-graphics translation; parts B/C/D: from the pending-wrap state also CUF/CUB/CUU/CUD/RIS/DECSTBM, scripted as "
+    "<clearing op> <address the last column> <print> <print>; "
     "part D: the part-B machinery with DECOM on/off, 2-4 DECSTBM settings per program (nested, overlapping, disjoint, widening, "
     "bare CSI r, invalid top>=bottom) and probes after each (CUP/HVP to top/bottom/outside rows, LF, RI, IND/NEL, IL/DL, print "
     "to and past the last column, CPR, CUU/CUD, ED/EL) on 2x3..10x10 terminals; "
@@ -85,6 +96,13 @@ ASSUMES = [
     "counts between 1e5 and what python's int() accepts (<= 4300 digits) are not sent to ICH/DCH/IL/DL (they loop per count: "
     "denial of service, not a statement violation); parameters of 4299..20000 digits go to every other final, and those of "
     ">= 4301 digits (which int() refuses, so TermCanvas treats them as missing) to all finals",
+    "charsets / save-restore (part C): glyphs are compared after DEC special-graphics translation of the cell's charset tag; "
+    "G1 starts as DEC graphics (linux-console default, as in TermCanvas); DECRC is only issued after a DECSC, with the same "
+    "G0/G1 designations and SGR 10/11 state as at the save (TermCanvas shares the designation list between the saved and "
+    "the live state and does not save its display-control flag; DECSC/charsets are outside the statement's listed subset, "
+    "so these corners are avoided rather than reported); while SGR 11/12 is on no C0 control is sent; CSI s/u are not used",
+    "pending wrap: CR, CUP/HVP, CUF/CUB/CUU/CUD, RIS and DECSTBM clear the deferred wrap (vt.py / xterm rule); BS, LF, TAB, "
+    "erase, insert/delete and DECSC from that state stay excluded as disputed",
     "origin mode (part D): DECSTBM parameters are absolute screen lines whatever DECOM says; CUP/HVP/home are relative to and "
     "confined in the region while DECOM is set; ED is not affected by margins; the CPR row is compared as TermCanvas sends it "
     "(absolute) because the statement only requires well-formed replies",
@@ -143,7 +161,9 @@ def active_quirks(ctx=None):
 # follows TermCanvas here instead of reporting it (oracle correction, see final report).
 # "cpr-absolute-in-origin-mode": TermCanvas reports the absolute row in a CPR also while DECOM is set (a VT100 reports
 # it relative to the top margin).  The statement only asks for well-formed replies, so this is not reported either.
-BASE_QUIRKS = frozenset({"il-dl-keep-column", "scrollback-saves-region-lines", "cpr-absolute-in-origin-mode"})
+# "g1-default-dec-graphics": G1 holds DEC special graphics after power-up / RIS in TermCanvas (the linux console default;
+# a VT100 / xterm starts with ASCII there).  Which one is "right" depends on the terminal imitated: not reported.
+BASE_QUIRKS = frozenset({"il-dl-keep-column", "scrollback-saves-region-lines", "cpr-absolute-in-origin-mode", "g1-default-dec-graphics"})
 
 _vterm = None
 _util = None
@@ -652,6 +672,10 @@ def render_b(op, enc):
         return f"\x1b[{p(op[1])};{p(op[2])}r".encode()
     if k == "DECOM":
         return b"\x1b[?6h" if op[1] else b"\x1b[?6l"
+    if k in ("RIS", "SO", "SI", "DECSC", "DECRC"):
+        return {"RIS": b"\x1bc", "SO": b"\x0e", "SI": b"\x0f", "DECSC": b"\x1b7", "DECRC": b"\x1b8"}[k]
+    if k in ("G0", "G1"):
+        return (b"\x1b(" if k == "G0" else b"\x1b)") + op[1].encode("ascii")
     if k == "SGR":
         flat = []
         for v in op[1]:
@@ -663,11 +687,20 @@ def render_b(op, enc):
 class GenState:
     """what the generator must remember to stay away from disputed corners (model independent)"""
 
-    __slots__ = ("need_cup", "pending")
+    __slots__ = ("need_cup", "pending", "saved", "saved_desig", "saved_altfont", "restores", "changed", "queue")
 
     def __init__(self):
         self.need_cup = False  # after IL/DL/DECSTBM: re-address the cursor first
         self.pending = False  # the previous op was a print that ended in the last column
+        self.saved = False  # a DECSC happened since power-up / RIS
+        self.saved_desig = None  # G0/G1 designations at that DECSC
+        self.saved_altfont = False  # SGR 10/11 state at that DECSC
+        self.restores = 0  # DECRCs since the last DECSC
+        self.changed = False  # charset / SGR state changed since the last DECSC or DECRC
+        self.queue = []  # scripted follow-up ops (generator only)
+
+
+PENDING_CLEARERS = ("CR", "CUP", "HVP", "CUF", "CUB", "CUU", "CUD", "RIS", "STBM")
 
 
 def admissible(op, vt, st):
@@ -676,8 +709,17 @@ def admissible(op, vt, st):
         return True
     if st.need_cup and k not in ("CUP", "HVP", "DECOM"):
         return False
-    if st.pending and k not in ("print", "CR", "CUP", "HVP"):
+    # right after a print into the last column only ops whose effect on the deferred wrap is undisputed may follow:
+    # they all clear it (vt.py's rule = xterm's); BS / LF / TAB / erase / insert / DECSC from that state are disputed
+    if st.pending and k not in PENDING_CLEARERS and k != "print":
         return False
+    if vt.altfont and k in ("CR", "LF", "BS", "SO", "SI"):
+        return False  # SGR 11/12 is the linux "display control characters" font: C0 bytes are glyphs there (not modelled)
+    if k == "print" and vt.altfont and not all(0x20 <= ord(c) < 0x7F for c in op[1]):
+        return False
+    if k == "DECRC":
+        # restore without a save, with Gn re-designated since the save, or across an SGR 10/11 change: disputed / linux-only
+        return st.saved and st.saved_desig == list(vt.charsets[:2]) and st.saved_altfont == vt.altfont
     if k in ("CUU", "CUD"):
         # with origin mode on the cursor cannot leave the region, so stopping at the margins is undisputed
         return vt.scroll_region == (0, vt.rows - 1) or vt.origin_mode
@@ -702,6 +744,22 @@ def after_op(op, st, vt):
         st.need_cup = False
     elif k == "DECOM":
         st.need_cup = False  # DECOM homes the cursor (column 0 of the origin row)
+    elif k == "RIS":
+        st.need_cup = False
+        st.saved = False
+        st.restores = 0
+    elif k == "DECSC":
+        st.saved = True
+        st.saved_desig = list(vt.charsets[:2])
+        st.saved_altfont = vt.altfont
+        st.restores = 0
+        st.changed = False
+    elif k == "DECRC":
+        st.need_cup = False
+        st.restores += 1
+        st.changed = False
+    if k in ("SO", "SI", "G0", "G1", "SGR"):
+        st.changed = True
 
 
 def gen_count(rng, lim):
@@ -717,8 +775,99 @@ def gen_count(rng, lim):
     return rng.randint(lim, lim + 5)
 
 
+def scripted(rng, vt, st):
+    """next op of a scripted follow-up, if it is still admissible"""
+    while st.queue:
+        op = st.queue.pop(0)
+        if admissible(op, vt, st):
+            return op
+    return None
+
+
+def pending_clear_script(rng, vt):
+    """from the pending-wrap state: one op that must clear it, then cursor addressing to the last column, then a glyph
+    (which therefore has to land IN the last column instead of wrapping)"""
+    cols, rows = vt.cols, vt.rows
+    k = rng.choice(["RIS", "RIS", "CUP", "HVP", "CR", "CUF", "CUB", "CUU", "CUD", "STBM"])
+    if k in ("CUP", "HVP"):
+        first = [k, rng.randint(1, rows), rng.choice([cols, cols, rng.randint(1, cols)])]
+    elif k in ("CUF", "CUB"):
+        first = [k, rng.choice([None, 0, 1, 2, cols])]
+    elif k in ("CUU", "CUD"):
+        first = [k, rng.choice([None, 1, rows])]
+    elif k == "STBM":
+        first = ["STBM", None, None]
+    else:
+        first = [k]
+    how = rng.random()
+    if how < 0.6:
+        back = [[rng.choice(["CUP", "HVP"]), rng.randint(1, rows), cols]]
+    elif how < 0.8:
+        back = [["CUP", rng.randint(1, rows), 1], ["CUF", cols + rng.randint(0, 2)]]
+    else:
+        back = []
+    return [first, *back, ["print", rng.choice("XYZ")], ["print", rng.choice("xyz")]]
+
+
+C_TEXT = "abcjklmnqtuvwx_`~{|}AB 01"
+SGR_C = [0, 0, 1, 4, 5, 7, 24, 25, 27, 31, 32, 34, 37, 39, 41, 44, 47, 49]
+
+
+def gen_c_op(rng, vt, st, enc):
+    """part C: shift in/out, G0/G1 designation, SGR (also 10/11/12) and DECSC/DECRC with several restores per save"""
+    cols, rows = vt.cols, vt.rows
+    op = scripted(rng, vt, st)
+    if op is not None:
+        return op
+    if st.saved and rng.random() < 0.10:
+        # save-less second (third) restore with a charset / rendition change in between
+        change = rng.choice([["SO"], ["SI"], ["SGR", [rng.choice(SGR_C)]], ["SO"], ["SGR", [rng.choice([1, 4, 7, 32, 44])]]])
+        st.queue = [["DECRC"], change, ["print", "".join(rng.choice(C_TEXT) for _ in range(rng.randint(1, 2)))], ["DECRC"], ["print", "".join(rng.choice(C_TEXT) for _ in range(2))]]
+    for _ in range(60):
+        r = rng.random()
+        if r < 0.28:
+            n = rng.choice([1, 2, 3, max(1, cols - vt.cursor[0])])
+            op = ["print", "".join(rng.choice(C_TEXT) for _ in range(n))]
+        elif r < 0.36:
+            op = ["SO"]
+        elif r < 0.43:
+            op = ["SI"]
+        elif r < 0.50:
+            op = ["G0", rng.choice("0B0BA")]
+        elif r < 0.57:
+            op = ["G1", rng.choice("0B0BA")]
+        elif r < 0.67:
+            ps = [rng.choice(SGR_C) for _ in range(rng.randint(1, 2))]
+            if rng.random() < 0.25:
+                ps.append(rng.choice([10, 11, 12, 10]))
+            op = ["SGR", ps]
+        elif r < 0.74:
+            op = ["DECSC"]
+        elif r < 0.86:
+            op = ["DECRC"]
+        elif r < 0.92:
+            op = [rng.choice(["CUP", "HVP"]), rng.randint(1, rows), rng.randint(1, cols)]
+        elif r < 0.95:
+            op = [rng.choice(["CR", "LF", "NEL"])]
+        elif r < 0.97:
+            op = ["RIS"]
+        else:
+            op = [rng.choice(["CUF", "CUB", "ED", "EL"]), rng.choice([None, 1, 2])]
+        if admissible(op, vt, st):
+            return op
+    return ["CUP", 1, 1]
+
+
 def gen_b_op(rng, vt, st, enc):
     cols, rows = vt.cols, vt.rows
+    op = scripted(rng, vt, st)
+    if op is not None:
+        return op
+    if st.pending and rng.random() < 0.35:
+        st.queue = pending_clear_script(rng, vt)
+        op = scripted(rng, vt, st)
+        if op is not None:
+            return op
     for _ in range(50):
         r = rng.random()
         if r < 0.30:
@@ -1285,7 +1434,12 @@ def classify_s(wit):
 
 def classify_attr(pre, am, shrunk_seen):
     """pre: part-B prefix whose last op produced an attribute mismatch"""
-    sgr = [op for op in pre["ops"] if op[0] == "SGR"]
+    ops_since_reset = pre["ops"]
+    for i in range(len(ops_since_reset) - 1, -1, -1):
+        if ops_since_reset[i][0] == "RIS":  # RIS resets the rendition: only the SGR history after it matters
+            ops_since_reset = ops_since_reset[i + 1 :]
+            break
+    sgr = [op for op in ops_since_reset if op[0] == "SGR"]
     if sgr:
         res = classify_s({"part": "S", "enc": "utf8", "ops": [["SGR", list(o[1])] for o in sgr]})
         if res:
@@ -1308,6 +1462,11 @@ def classify_attr(pre, am, shrunk_seen):
     shrunk_seen["attr"] = shrunk_seen.get("attr", 0) + 1
     small = shrink_b(pre, pred)
     r = exec_b(small, allq, mode="attr")
+    if all(op[0] in ("SGR", "print") for op in small["ops"]):
+        # the shrunk witness is a pure SGR history after all (the full one was interrupted by RIS / DECRC ...)
+        res = classify_s({"part": "S", "enc": "utf8", "ops": [["SGR", list(o[1])] for o in small["ops"] if o[0] == "SGR"]})
+        if res:
+            return res
     return (fallback_sig(small, r[1]), f"{r[1]}: {r[2]}", dict(small, mode="attr"))
 
 
@@ -1435,12 +1594,29 @@ def count_d(ctx, op, vt):
                 ctx.count("D_decstbm_reset_under_origin_mode_from_subregion")
 
 
-def run_b_generated(ctx, rng, shrunk_seen, part_d=False):
+def count_c(ctx, op, st, vt):
+    ctx.count("C_ops_compared")
+    k = op[0]
+    if k == "DECRC":
+        ctx.count("C_decrc")
+        if st.restores >= 1:
+            ctx.count("C_decrc_again_without_new_save")
+            if st.changed:
+                ctx.count("C_decrc_again_after_charset_or_sgr_change")
+    elif k in ("SO", "SI", "G0", "G1"):
+        ctx.count("C_charset_ops")
+    elif k == "print" and (vt.charset == "0" or vt.altfont):
+        ctx.count("C_prints_in_graphics_or_alt_font")
+
+
+def run_b_generated(ctx, rng, shrunk_seen, part_d=False, part_c=False):
     """generate one case in lock-step with the models"""
     w, h = rand_size(rng, big=rng.random() < 0.3)
     h = min(h, 12)
     if part_d:
         w, h = rng.randint(2, 10), rng.randint(3, 10)
+    if part_c:
+        w, h = rng.randint(2, 12), rng.randint(1, 5)
     enc = rng.choice(ENC_B)
     focus = rng.random() < 0.5
     chunk = rng.choice([0, 0, 0, 1, 2, 3, 7])
@@ -1455,7 +1631,12 @@ def run_b_generated(ctx, rng, shrunk_seen, part_d=False):
     first = None
     for _ in range(nops):
         lead = vf if alive_f else vq
-        op = (gen_d_op if part_d else gen_b_op)(rng, lead, st, enc)
+        op = (gen_d_op if part_d else (gen_c_op if part_c else gen_b_op))(rng, lead, st, enc)
+        if st.pending and op[0] in PENDING_CLEARERS:
+            ctx.count("B_pending_wrap_cleared_by_op")
+            ctx.count(f"B_pending_cleared_by:{op[0]}")
+        if part_c:
+            count_c(ctx, op, st, lead)
         if part_d:
             count_d(ctx, op, lead)
             ctx.count("D_ops_compared")
@@ -1573,6 +1754,11 @@ def replay_b(ctx, wit):
         case = {k: v for k, v in wit.items() if k != "mode"}
         r = exec_b(case, set(active_quirks()), mode="attr")
         ctx.case(("B-replay", case["ops"]))
+        if r is not None and all(op[0] in ("SGR", "print") for op in case["ops"]):
+            res = classify_s({"part": "S", "enc": "utf8", "ops": [["SGR", list(o[1])] for o in case["ops"] if o[0] == "SGR"]})
+            if res:
+                ctx.violation(res[0], res[1], wit)
+                return
         if r is not None:
             ctx.violation(fallback_sig(case, r[1]), f"{r[1]}: {r[2]}", wit)
         return
@@ -1948,6 +2134,12 @@ DIRECTED = [
     {"part": "U", "w": 8, "h": 2, "enc": "iso8859-1", "ops": [["UTF8ON"], ["mb", "ж"], ["ascii", "a"], ["UTF8OFF"], ["raw", [0xFF, 0xA1]]]},
     {"part": "U", "w": 8, "h": 2, "enc": "euc-jp", "ops": [["raw", [0xA4, 0xA2]], ["UTF8ON"], ["mb", "жΩ"], ["RIS"], ["raw", [0xA4]]]},
     {"part": "U", "w": 8, "h": 2, "enc": "utf8", "ops": [["UTF8OFF"], ["mb", "жλ"], ["RIS"], ["mb", "€"]]},
+    # several restores per save with charset / SGR changes in between; RIS and cursor motion from the pending-wrap state
+    {"part": "B", "w": 8, "h": 2, "focus": False, "enc": "utf8", "chunk": 0, "ops": [["print", "ab"], ["DECSC"], ["DECRC"], ["SO"], ["print", "q"], ["DECRC"], ["print", "cd"], ["SGR", [31, 4]], ["SO"], ["DECRC"], ["print", "x"]]},
+    {"part": "B", "w": 8, "h": 2, "focus": True, "enc": "ascii", "chunk": 1, "ops": [["G1", "0"], ["SGR", [32]], ["DECSC"], ["SO"], ["print", "lqk"], ["DECRC"], ["print", "lqk"], ["SGR", [11]], ["print", "a"], ["SGR", [10]], ["SO"], ["DECRC"], ["print", "t"], ["G0", "0"], ["G0", "B"], ["DECRC"], ["print", "u"]]},
+    {"part": "B", "w": 5, "h": 3, "focus": False, "enc": "utf8", "chunk": 0, "ops": [["print", "hello"], ["RIS"], ["CUP", 2, 5], ["print", "X"], ["print", "y"]]},
+    {"part": "B", "w": 5, "h": 3, "focus": False, "enc": "utf8", "chunk": 0, "ops": [["print", "hello"], ["CUU", 1], ["CUP", 2, 1], ["CUF", 9], ["print", "X"], ["CR"], ["print", "abcde"], ["CUB", 0], ["CUF", 1], ["print", "Z"]]},
+    {"part": "B", "w": 1, "h": 3, "focus": False, "enc": "utf8", "chunk": 0, "ops": [["print", "a"], ["RIS"], ["print", "b"], ["print", "c"]]},
     # origin mode x successive DECSTBM settings (non-nested, widening, bare reset, invalid) x probes
     {"part": "B", "w": 6, "h": 8, "focus": False, "enc": "utf8", "chunk": 0, "ops": [["DECOM", 1], ["STBM", 3, 5], ["CUP", 1, 1], ["print", "a"], ["STBM", 2, 7], ["CUP", 1, 1], ["print", "b"], ["DSR", 6], ["CUP", 6, 6], ["print", "cd"], ["LF"], ["CUP", 1, 1], ["RI"], ["IL", 1], ["CUP", 9, 1], ["print", "e"], ["DL", 1], ["CUP", 1, 1]]},
     {"part": "B", "w": 5, "h": 6, "focus": True, "enc": "ascii", "chunk": 1, "ops": [["STBM", 2, 3], ["CUP", 1, 1], ["DECOM", 1], ["print", "a"], ["STBM", None, None, "bare"], ["CUP", 6, 1], ["print", "z"], ["LF"], ["CUP", 1, 1], ["RI"], ["DSR", 6]]},
@@ -2016,6 +2208,9 @@ def run(ctx):
                 for _ in range(2):
                     run_b_generated(ctx, rng, shrunk_seen, part_d=True)
                     ctx.count("D_cases")
+                for _ in range(2):
+                    run_b_generated(ctx, rng, shrunk_seen, part_c=True)
+                    ctx.count("C_cases")
                 for _ in range(3):
                     run_k(ctx, gen_k_case(rng), shrunk_seen)
                 for _ in range(3):
